@@ -17,7 +17,10 @@
 (* and the page URL.  URLs are abstract:                                   *)
 (*    grid(x, y)   https://host/zqs/x/y     two numeric path components    *)
 (*    one(y)       https://host/zqs/view/y  one numeric path component     *)
-(*    base         the same without number  (https://host/zqs[/view])      *)
+(*    file(y)      https://host/zqs/view-y.html   number inside a component *)
+(*    q(y)         https://host/zqs/view?pg=y      one numeric query value  *)
+(*    q2(x, y)     https://host/zqs/view?pg=x&x=y  two numeric query values *)
+(*    base         the same without number  (https://host/zqs[/view[.html]])*)
 (*    js, empty    javascript: / empty href (kept for their number only)   *)
 (* A grid URL yields two page patterns (place holder in x, keyed by y, and *)
 (* place holder in y, keyed by x), which is what makes several candidates  *)
@@ -49,6 +52,9 @@ Js         == [k |-> "js", x |-> 0, y |-> 0]
 Empty      == [k |-> "empty", x |-> 0, y |-> 0]      \* an anchor with an empty href: an anchor, but its URL is ""
 Grid(x, y) == [k |-> "grid", x |-> x, y |-> y]
 One(y)     == [k |-> "one", x |-> 0, y |-> y]
+File(y)    == [k |-> "file", x |-> 0, y |-> y]
+Q(y)       == [k |-> "q", x |-> 0, y |-> y]
+Q2(x, y)   == [k |-> "q2", x |-> x, y |-> y]
 HasURL(p)  == p.u.k \notin {"none", "empty"}
 
 Digits(n) == IF n < 10 THEN 1 ELSE IF n < 100 THEN 2 ELSE 3
@@ -56,31 +62,50 @@ Digits(n) == IF n < 10 THEN 1 ELSE IF n < 100 THEN 2 ELSE 3
 UrlLen(u) == CASE u.k = "base" -> 0
                [] u.k = "one"  -> 6 + Digits(u.y)
                [] u.k = "grid" -> 2 + Digits(u.x) + Digits(u.y)
+               [] u.k = "file" -> 11 + Digits(u.y)
+               [] u.k = "q"    -> 9 + Digits(u.y)
+               [] u.k = "q2"   -> 12 + Digits(u.x) + Digits(u.y)
                [] OTHER        -> 20
 
 \* ---- page patterns -----------------------------------------------------------
-\* [ax |-> "v"]          /zqs/view/[*!]
+\* [ax |-> "v"]          /zqs/view/[*!]       [ax |-> "f"]          /zqs/view-[*!].html
 \* [ax |-> "x", key y]   /zqs/[*!]/y          [ax |-> "y", key x]   /zqs/x/[*!]
+\* [ax |-> "q"]          /zqs/view?pg=[*!]
+\* [ax |-> "qa", key y]  ?pg=[*!]&x=y         [ax |-> "qb", key x]  ?pg=x&x=[*!]
 Pat(ax, key) == [ax |-> ax, key |-> key]
 \* <<pattern, value>> pairs a link URL contributes (PathComponentPagePatternsFromURL)
 PatsOf(u) == CASE u.k = "grid" -> {<<Pat("x", u.y), u.x>>, <<Pat("y", u.x), u.y>>}
                [] u.k = "one"  -> {<<Pat("v", 0), u.y>>}
+               [] u.k = "file" -> {<<Pat("f", 0), u.y>>}
+               [] u.k = "q"    -> {<<Pat("q", 0), u.y>>}
+               [] u.k = "q2"   -> {<<Pat("qa", u.y), u.x>>, <<Pat("qb", u.x), u.y>>}
                \* a path without any digit yields no pattern at all (base)
                [] OTHER        -> {}
-\* order of the pattern strings (digits sort before the place holder "[*!]")
+\* order of the pattern strings (in a path digits sort before the place holder "[*!]")
 KeyRank(k) == IF k < 10 THEN k * 100 ELSE (k \div 10) * 100 + (k % 10) + 1     \* "1" < "10" < "11" < "2"
-PatRank(p) == CASE p.ax = "y" -> KeyRank(p.key) [] p.ax = "x" -> 10000 + KeyRank(p.key) [] OTHER -> 0
+\* (in a query the place holder is percent-encoded, and "%" sorts before the digits)
+PatRank(p) == CASE p.ax \in {"y", "qa"} -> KeyRank(p.key) [] p.ax \in {"x", "qb"} -> 10000 + KeyRank(p.key) [] OTHER -> 0
+\* query patterns are tried first; path patterns only when no link of the group has a numeric query value
+IsQueryPat(p) == p.ax \in {"q", "qa", "qb"}
 
 \* IsValidFor(docURL): the components other than the place holder agree
 ValidFor(p, doc) ==
     CASE p.ax = "v" -> doc.k \in {"one", "base"}
+      [] p.ax = "f" -> doc.k \in {"file", "base"}
       [] p.ax = "x" -> (doc.k = "grid" /\ doc.y = p.key) \/ doc.k = "base"
       [] p.ax = "y" -> (doc.k = "grid" /\ doc.x = p.key) \/ doc.k = "base"
-\* IsPagingURL(url) for a place holder at the start of a path component
+      [] p.ax = "q" -> doc.k \in {"q", "base"}                   \* same scheme, host and path
+      [] p.ax \in {"qa", "qb"} -> doc.k \in {"q2", "base"}
+\* IsPagingURL(url): path patterns by prefix / suffix / number in between, query patterns by equal path, equal
+\* other parameters and a numeric page parameter (if present)
 PagingURL(p, u) ==
     CASE p.ax = "v" -> u.k \in {"one", "base"}
+      [] p.ax = "f" -> u.k \in {"file", "base"}
       [] p.ax = "x" -> u.k = "grid" /\ u.y = p.key
       [] p.ax = "y" -> (u.k = "grid" /\ u.x = p.key) \/ u.k = "base"
+      [] p.ax = "q" -> u.k \in {"q", "base"}
+      [] p.ax = "qa" -> u.k = "q2" /\ u.y = p.key
+      [] p.ax = "qb" -> u.k = "q2" /\ u.x = p.key
 
 \* ---- FindOutlink: items -> monotonic groups ------------------------------------
 G0 == [groups |-> <<>>, prev |-> 0]                 \* prev: number of the last page info, 0 = none
@@ -143,7 +168,8 @@ Ascending(g, doc) ==
 \* (calendar elimination needs 28 numbers in a row: outside every bound used here)
 
 \* candidates: pattern -> links [n, v, pos] in list order; place holders have no pattern
-Candidates(asc) == UNION {{pv[1] : pv \in PatsOf(asc[i].u)} : i \in 1..Len(asc)}
+AllPats(asc)    == UNION {{pv[1] : pv \in PatsOf(asc[i].u)} : i \in 1..Len(asc)}
+Candidates(asc) == IF \E p \in AllPats(asc) : IsQueryPat(p) THEN {p \in AllPats(asc) : IsQueryPat(p)} ELSE AllPats(asc)
 LinksOf(asc, p) ==
     LET idx == SelectSeq([i \in 1..Len(asc) |-> i], LAMBDA i : \E pv \in PatsOf(asc[i].u) : pv[1] = p)
     IN  [j \in 1..Len(idx) |-> [n |-> asc[idx[j]].n, pos |-> idx[j],
